@@ -409,11 +409,17 @@ PROPS = {
         ],
     },
     'C13': {
-        'v_units': [],
+        'v_units': ['waitsub'],
         'k_units': ['waitstatus'],
         'level': 'other',
         'explanation': (
-            'One object-level kernel of C13 only, bounded. Kani runs the real job_status closure of the wait built-in '
+            'Two object-level kernels of C13, no schedules. (1) Verus (unit waitsub, unbounded) on the real Env::wait_for_subshell, '
+            'wait_for_subshell_to_halt, wait_for_subshell_to_finish and update_all_subshell_statuses (yash-env/src/lib.rs), against a ghost '
+            'monitor of the four opaque calls they make: the internal SIGCHLD disposition is asked for BEFORE the first wait() and nothing is '
+            'waited for without it (no SIGCHLD can slip between a wait() that found nothing and the sleep); the shell sleeps only for SIGCHLD '
+            'and only right after a wait() that found nothing; every status the system reports is handed to the job table at once and '
+            'unchanged, none is dropped; what is returned is what the system reported for the awaited child in the last wait(); only a halted '
+            '(resp. not merely stopped) child ends the waiting, and the exit status is the one its result stands for. (2) Kani runs the real job_status closure of the wait built-in '
             '(yash-builtin/src/wait/status.rs) - the step that turns the state of a child recorded in the job table into what `wait` '
             'answers - on job tables holding one job (process state, ownership, job-control flags all symbolic; signals 1..64) or none: an '
             'exited child yields its exit status, a signalled child 384 + the signal number, a stopped child is reported only under job '
@@ -423,8 +429,9 @@ PROPS = {
             'interleaving, that the table is updated from the true wait status of the right child (wait_for_subshell, '
             'update_all_subshell_statuses, the SIGCHLD handling), zombies, $!, the pipefail rule (four lines inside the async pipeline '
             'executor), `wait` without operands. The family of technique is silent on interleavings; this check sees none of them.'),
-        'trusted_base': ['Kani 0.68.0 + CBMC 6.11', '/verif/tools/kunit.py'],
+        'trusted_base': ['Verus 0.2026.09.13 + Z3', 'Kani 0.68.0 + CBMC 6.11', '/verif/tools/vextract.py, /verif/tools/kunit.py'],
         'assumptions': [
+            'unit waitsub: enabling the SIGCHLD disposition, System::wait, JobList::update_status and wait_for_signal are opaque calls that update a ghost monitor in the reduced Env (rewrite rule tokens-to-helper for the three field-method calls); From<ProcessResult> for ExitStatus is uninterpreted; await points dropped; termination not claimed; WHEN children change state is not modelled',
             'std HashMap of the job table is replaced by the linear stand-in of the Kani pipeline (cfg verif_map)',
             'tables of at most one job; the status test is applied twice; signals restricted to 1..64',
         ],
